@@ -537,7 +537,8 @@ func (lm *lexSSAModel) summarise(fn *ssa.Function, b byte, p *pwPath) *lexTokPat
 		if n := len(tp.scans); n > 0 && tp.scans[n-1] == "loop" && len(tp.scanFns) == n && tp.scanFns[n-1] == lm.skipper {
 			// (the re-run of the skipper itself is not a scanner of this token)
 			tp.scans, tp.scanFns = tp.scans[:n-1], tp.scanFns[:n-1]
-			tp.retRecur = same && tp.readsAfter == 0 && len(tp.scans) > 0
+			// what was skipped over was read by a scanner, or by a loop of the token function itself
+			tp.retRecur = same && (len(tp.scans) > 0 && tp.readsAfter == 0 || len(tp.scans) == 0 && tp.reads > 0)
 		}
 		return tp
 	}
